@@ -17,6 +17,7 @@ import (
 	"reservoir/proxy/responder"
 	"reservoir/utils/httplistener"
 	"reservoir/utils/typeutils"
+	"reservoir/utils/verifhook"
 	"time"
 )
 
@@ -236,6 +237,7 @@ func (p *Proxy) processRequest(r responder.Responder, req *http.Request, key cac
 			return fmt.Errorf("cache entry data is nil")
 		}
 		defer fetched.Cached.Entry.Data.Close()
+		verifhook.At("proxy.serve.cached", key.Hex)
 
 		if clientHd.Range.IsPresent() {
 			if err := p.handleRangeRequest(r, req, fetched.Cached.Entry, key, clientHd); err != nil {
